@@ -21,8 +21,8 @@ def spec_completions(K, q):
 def spec_alphabet(K):
     return sorted(set(b for k in K for b in k))
 
-def spec_mp_nodes(K):
-    """root + one node per non-empty prefix p.c of a key such that >= 2 keys start with p"""
+def spec_mp_nodes_slow(K):
+    """root + one node per non-empty prefix p.c of a key such that >= 2 keys start with p (transliteration of Spec.v)"""
     seen = set()
     for k in K:
         for i in range(1, len(k) + 1):
@@ -32,6 +32,24 @@ def spec_mp_nodes(K):
         par = p[:-1]
         if sum(1 for k in K if k.startswith(par)) >= 2:
             n += 1
+    return n
+
+def _lcp(a, b):
+    n = min(len(a), len(b)); i = 0
+    while i < n and a[i] == b[i]:
+        i += 1
+    return i
+
+def spec_mp_nodes(K):
+    """the same number in O(total length): K sorted and distinct. A key's path ends at depth
+    d = min(|k|, l+1) where l is the longest prefix it shares with a neighbour; nodes = 1 + sum (d_i - lcp(k_{i-1},k_i))"""
+    if len(K) <= 1:
+        return 1
+    lc = [0] + [_lcp(K[i - 1], K[i]) for i in range(1, len(K))] + [0]
+    n = 1
+    for i, k in enumerate(K):
+        l = max(lc[i], lc[i + 1])
+        n += min(len(k), l + 1) - lc[i]
     return n
 
 def parse_results(fields):
@@ -131,7 +149,7 @@ class TrieJudge:
                 if bm != eb: V.append(('C17', 'bin_mode %d != %d' % (bm, eb)))
                 if nn + nf != nu: V.append(('C17', 'num_nodes %d + num_free_units %d != num_units %d' % (nn, nf, nu)))
                 if tl < 1: V.append(('C17', 'tail_length %d < 1' % tl))
-                if len(K) <= 3000:
+                if True:
                     mp = spec_mp_nodes(K)
                     if nn != mp: V.append(('C17', 'num_nodes %d != minimal-prefix trie nodes %d' % (nn, mp)))
         # ids must be a bijection onto [0,n) when every key was seen
